@@ -238,7 +238,18 @@ inductive ClassSame : List FieldSp → List FieldSp → Prop where
   | nil : ClassSame [] []
   | cons {a b : FieldSp} {as bs : List FieldSp} : FieldSame a b → ClassSame as bs → ClassSame (a :: as) (b :: bs)
 
+/-- string annotations are claimed to behave like evaluated ones unless: the annotation is quoted AND the
+    module has the future import (finding `quoted-under-future-import`); it is quoted, 50 or more characters
+    long, without the import (finding `quoted-annotation-50`); or its names live in an enclosing function
+    (`string-annotation-enclosing-scope`, a limitation of string annotations themselves) -/
+def stringOk (sc : Scope) (future : Bool) (fs : FieldSp) : Bool :=
+  !(fs.mode == .ann && fs.quoted && (future || decide (50 ≤ annLenField fs)))
+  && !(stringAnn future fs && sc == .enclosing && fs.unresolved)
+
+def fieldSupportedAt (O : Oracles) (tm : TypeMap) (sc : Scope) (future : Bool) (fs : FieldSp) : Bool :=
+  fieldSupported O tm future fs && stringOk sc future fs
+
 def classSupported (O : Oracles) (tm : TypeMap) (c : ClassSp) : Bool :=
-  c.fields.all (fieldSupported O tm c.future)
+  c.fields.all (fieldSupportedAt O tm c.scope c.future)
 
 end Typedpy.Elab
